@@ -4,7 +4,7 @@ c_Names == {"a", "b", "c"}
 c_Order == <<"a", "b", "c">>
 c_Names2 == {"a", "b"}
 c_Order2 == <<"a", "b">>
-c_Pkgs == {"P", "Q"}
+c_Pkgs == {"P", "Q", "P2"}
 c_PkgChems == [p \in c_Pkgs |-> IF p = "P" THEN {1, 2} ELSE {2, 1}]
 c_InitPkg == [x \in c_Names |-> IF x = "c" THEN "Q" ELSE "P"]
 c_InitPkg2 == [x \in c_Names2 |-> "P"]
